@@ -259,15 +259,18 @@ structure CancelResp where
   errorCode : Option String := none
   deriving Repr, Inhabited
 
+/-- `update_data.get("size_reduction") or self.size_remaining` -/
+def effRed (o : SimOrder) (red : Option Rat) : Rat :=
+  match red with
+  | some r => if r = 0 then o.sizeRemaining else r
+  | none => o.sizeRemaining
+
 /-- `SimulatedOrder.cancel(market_book)`; `sizeReduction` = order.update_data.get("size_reduction") -/
 def cancel (o : SimOrder) (bookStatus : MStatus) (sizeReduction : Option Rat) : SimOrder × CancelResp :=
   if bookStatus ≠ .open_ then (o, { status := .failure, errorCode := some "ERROR_IN_ORDER" })
   else match o.kind with
     | .limit =>
-      let red : Rat := match sizeReduction with
-        | some r => if r = 0 then o.sizeRemaining else r
-        | none => o.sizeRemaining
-      let c := ratMin red o.sizeRemaining
+      let c := ratMin (effRed o sizeReduction) o.sizeRemaining
       ({ o with sizeCancelled := o.sizeCancelled + c }, { status := .success, sizeCancelled := c })
     | _ => (o, { status := .failure, errorCode := some "BET_ACTION_ERROR" })
 
@@ -288,15 +291,18 @@ def calculateProcessTraded (o : SimOrder) (pt : Int) (tradedSize : Rat) : SimOrd
     ({ o1 with piq := 0 }, (o.piq + size) * 2)
   else ({ o with piq := o.piq - t }, tradedSize)
 
+/-- a traded price counts for the order: at or through its limit -/
+def eligible (o : SimOrder) (tp : Rat) : Bool :=
+  match o.side with
+  | .back => decide (o.price ≤ tp)
+  | .lay => decide (tp ≤ o.price)
+
 /-- `_process_traded(publish_time, traded)`; `traded` is the (price → size) dict as an association
     list in dict order; returns the order and the dict with the consumed volume written back. -/
 def processTraded (pt : Int) : List (Rat × Rat) → SimOrder → SimOrder × List (Rat × Rat)
   | [], o => (o, [])
   | (tp, ts) :: rest, o =>
-    let eligible := match o.side with
-      | .back => decide (o.price ≤ tp)
-      | .lay => decide (tp ≤ o.price)
-    if eligible then
+    if eligible o tp then
       let (o1, m) := calculateProcessTraded o pt ts
       let ts' := if m ≠ 0 then ratMax (ts - m) 0 else ts
       let (o2, rest') := processTraded pt rest o1
